@@ -190,15 +190,16 @@ Definition pe_spec_pages (pagesz ptr : Z) (raw : bytes) : list (Z * bytes) := nu
 Definition pe_spec_page_preimage (pagesz : Z) (page : bytes) : bytes := page ++ zeros (pagesz - zlen page).
 
 (* ================================================================== 7. PE checksum (lib/authenticode/checksum.go) *)
-Record ck := mkCk { ck_pos : Z; ck_sum : Z; ck_size : Z; ck_odd : bool }.
+(* ck_pos = h.cksumPos (absolute offset of the CheckSum field, -1 = none), ck_off = h.pos (bytes written so far) *)
+Record ck := mkCk { ck_pos : Z; ck_off : Z; ck_sum : Z; ck_size : Z; ck_odd : bool }.
 Definition ck_new (pe_start : Z) : ck :=
-  mkCk (if ck_new_none_cond pe_start then -1 else ck_new_pos pe_start) 0 0 false.
+  mkCk (if ck_new_none_cond pe_start then -1 else ck_new_pos pe_start) 0 0 0 false.
 (* the word loop: d has even length (an odd write was padded with one zero byte) *)
-Fixpoint ck_words (ckpos i : Z) (d : bytes) (sum : Z) : Z :=
+Fixpoint ck_words (ckpos pos i : Z) (d : bytes) (sum : Z) : Z :=
   match d with
   | lo :: hi :: r =>
-      let val := if ck_zero_cond i ckpos then 0 else ck_word lo hi in
-      ck_words ckpos (i + 2) r (ck_fold (wrap32 (sum + val)))
+      let val := if ck_zero_cond (ck_abs pos i) ckpos then 0 else ck_word lo hi in
+      ck_words ckpos pos (i + 2) r (ck_fold (wrap32 (sum + val)))
   | _ => sum
   end.
 Definition E_ODD := 1.
@@ -207,11 +208,8 @@ Definition ck_write (h : ck) (d : bytes) : result ck :=
   if ck_odd_err_cond (ck_odd h) then Err E_ODD else
   let odd := ck_write_odd_cond n in
   let d' := if odd then d ++ [0] else d in
-  let '(ckpos, pos') :=
-    if ck_skip_cond (ck_pos h) n then (-1, ck_pos h - n)
-    else if ck_here_cond (ck_pos h) then (ck_pos h, -1)
-    else (-1, ck_pos h) in
-  Ok (mkCk pos' (ck_words ckpos 0 d' (ck_sum h)) (wrap32 (ck_size h + n)) (ck_odd h || odd)).
+  Ok (mkCk (ck_pos h) (ck_off h + ck_pos_advance n) (ck_words (ck_pos h) (ck_off h) 0 d' (ck_sum h))
+           (wrap32 (ck_size h + n)) (ck_odd h || odd)).
 Fixpoint ck_write_all (h : ck) (ds : list bytes) : result ck :=
   match ds with
   | [] => Ok h
@@ -224,9 +222,12 @@ Definition ck_run (pe_start : Z) (ds : list bytes) : result Z :=
 (* SPEC (the published description of the PE image checksum): the file is read as little-endian 16-bit words (an odd
    trailing byte is a word on its own), the four bytes of the CheckSum field count as zero, words are added with
    end-around carry, and the file length is added to the folded sum *)
-Definition zero_field (P : Z) (data : bytes) : bytes :=
-  if (P <? 0) then data else
-  ztake P data ++ ztake (zlen data - P) [0; 0; 0; 0] ++ zdrop (P + 4) data.
+Fixpoint zero_field_from (P a : Z) (d : bytes) : bytes :=
+  match d with
+  | [] => []
+  | b :: r => (if (P <=? a) && (a <? P + 4) then 0 else b) :: zero_field_from P (a + 1) r
+  end.
+Definition zero_field (P : Z) (data : bytes) : bytes := if P <? 0 then data else zero_field_from P 0 data.
 Fixpoint words (d : bytes) : list Z :=
   match d with
   | lo :: hi :: r => (lo + 256 * hi) :: words r
@@ -237,15 +238,12 @@ Definition ones_add (a b : Z) : Z := let s := a + b in if s >? 65535 then s - 65
 Definition spec_cksum (pe_start : Z) (data : bytes) : Z :=
   let P := if pe_start <=? 0 then -1 else pe_start + 88 in
   wrap32 (fold_left ones_add (words (zero_field P data)) 0 + zlen data).
-(* splits on which the implementation computes the specification: every write but the last has even length, and no write
-   boundary falls on the CheckSum field or directly before it *)
-Fixpoint ck_split_ok (P : Z) (ds : list bytes) : bool :=
+(* splits the hasher accepts: every write but the last has even length (io.Copy from a regular file: 32 KiB reads) *)
+Fixpoint ck_split_ok (ds : list bytes) : bool :=
   match ds with
   | [] => true
   | [d] => true
-  | d :: r =>
-      let n := zlen d in
-      (Z.rem n 2 =? 0) && ((P <? 0) || (P >? n) || (P + 4 <=? n)) && ck_split_ok (if P >? n then P - n else -1) r
+  | d :: r => (Z.rem (zlen d) 2 =? 0) && ck_split_ok r
   end.
 
 (* ================================================================== 8. tar framing of zip uploads (zipslicer/tarzip.go) *)
